@@ -525,4 +525,6 @@ func runLife(c LifeCase) core.Result {
 	return res
 }
 
-func TestLifecycle(t *testing.T) { core.RunChild(t, "c04.lifecycle", genLife, runLife, 120*time.Second) }
+func TestLifecycle(t *testing.T) {
+	core.RunChild(t, "c04.lifecycle", genLife, runLife, 120*time.Second)
+}
